@@ -4,6 +4,9 @@ import Proofs.DenseVJP
 import Proofs.DenseBridge
 import Proofs.SoftmaxCE
 import Props.C07
+import Proofs.DeconvAdjoint
+import Proofs.ConvAdjoint
+import Proofs.MaxpoolAdjoint
 
 /-!
 # C01 — backpropagated gradients are the true derivatives of the objective
@@ -138,6 +141,66 @@ theorem softmax_dense_passes_gradient {r c : ℕ} (l : DenseLayer ℝ) (W : V (F
   simp only [hshape, hloc, hadamard_vec, hl.scale, hd, product_vec _ _ hr, hl.weights, transpose_mat W hr hc,
     dot_mat_vec, hl.bias, Option.map_some]
   rfl
+
+/-! ### spatial layers: backward is the transpose of forward, for every configuration
+
+The pre-activation of a convolution / deconvolution is bilinear in (kernels, input), that of a
+max-pool away from ties is the selection of the recorded arg-max positions; the derivative of a
+(bi)linear map is the map itself, so "backward returns the derivative" is the adjoint identity
+`⟨δ, forward(direction)⟩ = ⟨backward(δ), direction⟩` for every direction — proved here for **every
+stride, dilation, padding, kernel size, channel and filter count** (`δ = g ⊙ act′(pre)` is formed
+element-wise exactly as in the dense layer).  `ip3`/`ip4` are the inner products over an index box. -/
+
+open Adjoint Adjoint4 in
+/-- deconvolution, input: `⟨δ, deconv_K(v)⟩ = ⟨gx(δ), v⟩` -/
+theorem deconv_input_gradient_is_transpose (l : Deconv ℝ) (x v : V3 ℝ) (ks : List (V3 ℝ)) (delta : V3 ℝ)
+    (kf kc ih iw kh kw oh ow : ℕ) :
+    ip3 kf oh ow (Deconv.scatter v ks kf kc (Deconv.taps l ih iw kh kw oh ow) oh ow) delta =
+      ip3 kc ih iw (Deconv.gradPass x ks delta kf kc kh kw ih iw (Deconv.taps l ih iw kh kw oh ow)).1 v :=
+  DeconvAdjoint.input_adjoint l x v ks delta kf kc ih iw kh kw oh ow
+
+open Adjoint Adjoint4 in
+/-- deconvolution, kernels: `⟨δ, deconv_{dK}(x)⟩ = ⟨gK(δ), dK⟩` -/
+theorem deconv_kernel_gradient_is_transpose (l : Deconv ℝ) (x : V3 ℝ) (ks dK : List (V3 ℝ)) (delta : V3 ℝ)
+    (kf kc ih iw kh kw oh ow : ℕ) :
+    ip3 kf oh ow (Deconv.scatter x dK kf kc (Deconv.taps l ih iw kh kw oh ow) oh ow) delta =
+      ip4 kf kc kh kw (Deconv.gradPass x ks delta kf kc kh kw ih iw (Deconv.taps l ih iw kh kw oh ow)).2 dK :=
+  DeconvAdjoint.kernel_adjoint l x ks dK delta kf kc ih iw kh kw oh ow
+
+open Adjoint Finset in
+/-- convolution, input (through the zero padding and the crop): for every direction `v` of the
+    input's shape, `⟨δ, conv_K(pad v)⟩ = ⟨crop(padded gradient(δ)), v⟩` -/
+theorem conv_input_gradient_is_transpose (l : Conv ℝ) (ks : List (V3 ℝ)) (delta v : V3 ℝ)
+    (kf kc kh kw oh ow ih iw : ℕ) (hv : L.Dims3 v kc ih iw) (hc : 0 < kc) (hih : 0 < ih) :
+    ∃ vp, Tensor.pad3d v (ih + 2 * l.padding.1) (iw + 2 * l.padding.2) = .ok vp ∧
+      (∑ f ∈ range kf, ∑ m ∈ range oh, ∑ n ∈ range ow,
+        L.get3D 0 delta f m n *
+          Conv.convolveAt l vp (ks.getD f []) kc kh kw (ih + 2 * l.padding.1) (iw + 2 * l.padding.2) m n) =
+      ip3 kc ih iw (Conv.crop l (Conv.paddedInputGrad l ks delta kf kc kh kw oh ow
+        (ih + 2 * l.padding.1) (iw + 2 * l.padding.2)) ih iw) v := by
+  obtain ⟨vp, hp, hget⟩ := C02.pad3d_get v kc ih iw l.padding.1 l.padding.2 hv hc hih
+  refine ⟨vp, hp, ?_⟩
+  rw [ConvAdjoint.padded_input_adjoint]
+  exact ConvAdjoint.pad_crop_adjoint l _ v vp kc ih iw hget
+
+open Adjoint4 Finset in
+/-- convolution, kernels: `⟨δ, conv_{dK}(x̃)⟩ = ⟨gK(δ), dK⟩` -/
+theorem conv_kernel_gradient_is_transpose (l : Conv ℝ) (dK : List (V3 ℝ)) (delta xp : V3 ℝ) (kf kc kh kw oh ow ph pw : ℕ) :
+    (∑ f ∈ range kf, ∑ m ∈ range oh, ∑ n ∈ range ow,
+        L.get3D 0 delta f m n * Conv.convolveAt l xp (dK.getD f []) kc kh kw ph pw m n) =
+      ∑ f ∈ range kf, ∑ c ∈ range kc, ∑ h ∈ range kh, ∑ w ∈ range kw,
+        L.get4D 0 (Conv.kernelGrad l xp delta kf kc kh kw oh ow ph pw) f c h w * L.get4D 0 dK f c h w :=
+  ConvAdjoint.kernel_adjoint l dK delta xp kf kc kh kw oh ow ph pw
+
+open Adjoint in
+/-- max-pool: `⟨routed gradient, v⟩ = Σ og[c][h][w] · v[c][recorded arg-max of (c,h,w)]` -/
+theorem maxpool_gradient_is_transpose (l : Maxpool ℝ) (hl : l.loops = 1) (max : MaxIdx) (og v : V3 ℝ)
+    (pos : List (ℕ × ℕ × ℕ)) (ic ih iw : ℕ)
+    (hpos : ∀ p ∈ pos, p.1 < ic ∧ ∀ q ∈ L.get3D [] max p.1 p.2.1 p.2.2, q.1 < ih ∧ q.2 < iw) :
+    ip3 ic ih iw (Maxpool.route l max og pos ic ih iw) v =
+      (pos.map (fun p => L.get3D 0 og p.1 p.2.1 p.2.2 *
+        ((L.get3D [] max p.1 p.2.1 p.2.2).map (fun q => L.get3D 0 v p.1 q.1 q.2)).sum)).sum :=
+  MaxpoolAdjoint.route_adjoint l hl max og v pos ic ih iw hpos
 
 /-! non-vacuity: a 2×2 sigmoid layer satisfies every hypothesis -/
 example : ∀ i : Fin 2, NoKink .sigmoid (densePre (fun _ : Fin 2 × Fin 2 => (1 : ℝ)) (fun _ => 0) (fun _ => 1) i) := by
